@@ -27,8 +27,11 @@ def run(ctx):
         cases = T.trace_program(ctx, spec, traps, list(rc["kernels"]), [rc["args"]])
     else:
         cases = []
+        T.SPEC_SLOT = spec
         for c in CORPUS:
-            cases += T.trace_program(ctx, spec, traps, c["kernels"], [c["args"]])
+            # the fixed corpus is compiled all three ways: default, unfolded, and with the spec given to the decorator
+            for opts in ("", "(fold=False)", "(arch_spec=_TW.SPEC_SLOT)"):
+                cases += T.trace_program(ctx, spec, traps, c["kernels"], [c["args"]], opts=opts)
         n_prog = 1500 if ctx.tier == "thorough" else 150
         cases += T.random_traces(ctx, spec, n_prog, unfolded_share=0.25)
         if ctx.counts.get("compile_fail", 0) > 0.3 * n_prog:
